@@ -228,6 +228,33 @@ func c01Queries(depth, maxRows int) (queries []*Query, nDom, nS int) {
 			}
 		}
 	}
+	// F4: COALESCE over nullable columns feeding strict operators (projection, WHERE, NOT, through a subquery column)
+	for _, g := range gens {
+		co := func(c string) *Expr { return Op("coalesce", Col(c), Col(c)) }
+		tabs := []*Table{g.mk("t", c01Cols, U), g.mk("t", c01Cols, S[len(S)/2]), g.mk("t", c01Cols, S[len(S)-1])}
+		for _, t := range tabs {
+			for _, w := range []*Expr{nil, Op("<", co("t.a"), g.num(2)), Op("not", Op("=", co("t.a"), g.num(1))), Op("like", co("t.b"), Lit(Str("a%"))),
+				Op("or", Op("isnull", co("t.a")), co("t.c"))} {
+				for _, p := range [][]Proj{{{Star: true}}, {{E: Op("+", co("t.a"), g.num(1)), Alias: "x"}, {E: co("t.b"), Alias: "y"}, {E: Op("not", co("t.c")), Alias: "z"}}} {
+					q := NewQuery()
+					q.From = &From{Table: t}
+					q.Where = w
+					q.Proj = p
+					queries = append(queries, q)
+				}
+			}
+			in := NewQuery()
+			in.From = &From{Table: t}
+			in.Proj = []Proj{{E: co("t.a"), Alias: "a"}, {E: co("t.b"), Alias: "b"}}
+			for _, w := range []*Expr{nil, Op("<", Col("s.a"), g.num(2)), Op("not", Op("=", Col("s.a"), g.num(1)))} {
+				o := NewQuery()
+				o.From = &From{Sub: in, Alias: "s"}
+				o.Where = w
+				o.Proj = []Proj{{E: Op("+", Col("s.a"), g.num(1)), Alias: "x"}, {E: Col("s.b")}}
+				queries = append(queries, o)
+			}
+		}
+	}
 	return queries, len(dom), len(S)
 }
 
